@@ -21,7 +21,10 @@ func (fg *FG) run() (err error) {
 				err = fmt.Errorf("%s: %s%s", fg.name, ge.msg, at)
 				return
 			}
-			panic(r)
+			// an internal error of the generator is a tool error for this function (the check reports
+			// UNDECIDED), not a crash of the whole run
+			err = fmt.Errorf("%s: internal error of the generator: %v", fg.name, r)
+			return
 		}
 	}()
 	fn := fg.fn
@@ -91,6 +94,18 @@ func (fg *FG) run() (err error) {
 	for key, n := range fg.stepApplied {
 		if n == 0 {
 			fg.fail("loop step clause %s applies at no back-edge (unknown identifier?)", key)
+		}
+	}
+	for key, steps := range c.Before {
+		// "before K assert false" states that K is never called: attaching to nothing is its point
+		never := true
+		for _, sc := range steps {
+			if strings.TrimSpace(sc.Src) != "false" {
+				never = false
+			}
+		}
+		if !fg.beforeHit[key] && !never {
+			fg.softErrs = append(fg.softErrs, fmt.Sprintf("'before %s assert' attaches to nothing: the body has no such call (or send) - the clause would hold vacuously", key))
 		}
 	}
 	return nil
@@ -413,7 +428,15 @@ func (fg *FG) invStep(p, h *ssa.BasicBlock, st *State, pkg *types.Package) {
 		sfx  string
 	}
 	paths := []pathSt{{st, cond, ""}}
-	if mi := fg.merges[p.Index]; mi != nil && sameHeaps(mi.entry, st.heaps) {
+	predsDone := true
+	if mi := fg.merges[p.Index]; mi != nil {
+		for _, pb := range mi.preds {
+			if fg.endSt[pb] == nil {
+				predsDone = false
+			}
+		}
+	}
+	if mi := fg.merges[p.Index]; mi != nil && predsDone && sameHeaps(mi.entry, st.heaps) {
 		paths = nil
 		for i, pb := range mi.preds {
 			ps := fg.endSt[pb].clone()
@@ -1111,9 +1134,17 @@ func (fg *FG) ret(b *ssa.BasicBlock, st *State, t *ssa.Return, pkg *types.Packag
 	}
 	paths := []pathSt{{st, fg.R[b.Index], ""}}
 	if mi := fg.merges[b.Index]; mi != nil && sameHeaps(mi.entry, st.heaps) {
-		paths = nil
-		for i, pb := range mi.preds {
-			paths = append(paths, pathSt{fg.endSt[pb].clone(), fmt.Sprintf("(and %s %s)", fg.R[b.Index], mi.conds[i]), fmt.Sprintf("<b%d", pb)})
+		all := true
+		for _, pb := range mi.preds {
+			if fg.endSt[pb] == nil {
+				all = false
+			}
+		}
+		if all {
+			paths = nil
+			for i, pb := range mi.preds {
+				paths = append(paths, pathSt{fg.endSt[pb].clone(), fmt.Sprintf("(and %s %s)", fg.R[b.Index], mi.conds[i]), fmt.Sprintf("<b%d", pb)})
+			}
 		}
 	}
 	for _, pth := range paths {
